@@ -69,15 +69,22 @@ def callbacks_once_per_level(ctx):
         ctx.analysed(fi)
         cfgf = CFG(fi.node, m, fi.module)
         calls = [c for c in calls_in(fi.node) if call_attr(c) == 'callback' and len(c.args) >= 2 and isinstance(c.args[1], ast.Constant) and c.args[1].value == cbname]
-        keys = sorted(src(c.args[0]) for c in calls)
+        # `for key in (None, module, (module, param)): self.callback(key, ...)`: a loop over a literal tuple is the unrolled form
+        unrolled = {}
+        for c in calls:
+            loop = next((a for a in ancestors(c) if isinstance(a, (ast.For, ast.While))), None)
+            stc = next((a for a in ancestors(c) if isinstance(a, ast.stmt)), None)
+            if isinstance(loop, ast.For) and isinstance(loop.iter, (ast.Tuple, ast.List)) and isinstance(loop.target, ast.Name) and \
+                    src(c.args[0]) == loop.target.id and any(stc is x for x in loop.body) and not loop.orelse and \
+                    not any(isinstance(x, (ast.Break, ast.Continue, ast.Return)) for x in ast.walk(loop)):
+                unrolled[id(c)] = loop
+        keys = sorted(k for c in calls for k in ([src(e) for e in unrolled[id(c)].iter.elts] if id(c) in unrolled else [src(c.args[0])]))
         p = [a.arg for a in fi.node.args.args]
         want = sorted(['None', p[1], f'({p[1]}, {p[2]})'])
         ctx.check(keys == want, f'{fi.qualname}:{cbname} once per level', fi.node, f'callback keys {keys}',
                   f'{cbname} callbacks are invoked for keys {keys}, expected exactly {want} (node, module, parameter level once each)', fi)
-        inloop = [c for c in calls if any(isinstance(a, (ast.For, ast.While)) for a in ancestors(c))]
-        ids = [i for c in calls for i in cfgf.node_of(c)]
-        ok = not inloop and cfgf.all_paths_pass([cfgf.entry], [cfgf.exit], ids[:1], exc=False) if ids else False
-        allpass = all(cfgf.all_paths_pass([cfgf.entry], [cfgf.exit], cfgf.node_of(c), exc=False) for c in calls)
+        inloop = [c for c in calls if id(c) not in unrolled and any(isinstance(a, (ast.For, ast.While)) for a in ancestors(c))]
+        allpass = all(cfgf.all_paths_pass([cfgf.entry], [cfgf.exit], cfgf.ids(unrolled[id(c)]) if id(c) in unrolled else cfgf.node_of(c), exc=False) for c in calls)
         ctx.check(bool(calls) and not inloop and allpass, f'{fi.qualname}:{cbname} unconditional', fi.node, 'every normal path passes each callback call once',
                   f'a {cbname} callback call is conditional or in a loop: not exactly once per message', fi)
     sup = [c for c in calls_in(uv.node) if call_attr(c) == 'updateValue' and src(c.func.value) == 'super()']
@@ -176,8 +183,14 @@ def write_paths_export(ctx):
                 o = rd.origins_at(c, c.args[2])
                 bad = [x for x in o if not is_method_call(x, {'export_value'})]
                 # argument None of a command without argument comes from the parameter default: guarded by `if datatype`
-                bad = [x for x in bad if not (isinstance(x, ast.Name) and x.id.startswith('<param') and src(c.args[0]) == 'COMMANDREQUEST'
-                                              and any(isinstance(s, ast.If) and src(s.test) == 'datatype' for s in body_walk(fi.node)))]
+                # (the raw parameter reaches the request only where the test of the argument type came out false)
+                def no_argtype(a, tv, fi=fi):
+                    return not tv and isinstance(a, ast.Name) and any(src(o).endswith('.argument') for o in origins(a, fi.node))
+                if isinstance(c.args[2], ast.Name) and src(c.args[0]) == 'COMMANDREQUEST' and any(isinstance(x, ast.Name) and x.id.startswith('<param') for x in bad):
+                    nm = c.args[2].id
+                    redefs = [i for st in body_walk(fi.node) if isinstance(st, ast.Assign) and nm in rd._target_names(st.targets[0]) for i in cfg.ids(st)]
+                    if paths_need_fact(cfg, [cfg.entry], cfg.node_of(c), no_argtype, avoid=redefs):
+                        bad = [x for x in bad if not (isinstance(x, ast.Name) and x.id.startswith('<param'))]
                 ctx.check(not bad, f'{fi.qualname}:{src(c.args[0])} data is exported', c, 'data = datatype.export_value(...)',
                           f'the request data is {[src(x) for x in bad]}: the internal value is sent instead of the transport form - '
                           "a ScaledInteger '0.5' arrives as 0 / 0.0, a blob raises TypeError in json.dumps, an enum sends its name", fi)
@@ -270,6 +283,11 @@ def per_callback_flag(ctx):
             for g in guards:
                 n += 1
                 name = g.test.id
+                for _ in range(3):      # `flag = other_flag` inside the loop: the decision is the other flag's
+                    via = [a.value.id for a in inner if isinstance(a, ast.Assign) and src(a.targets[0]) == name and isinstance(a.value, ast.Name)]
+                    if len(via) != 1:
+                        break
+                    name = via[0]
                 inside = any(isinstance(a, ast.Assign) and src(a.targets[0]) == name and isinstance(a.value, ast.Constant) and a.value.value is True
                              for a in inner)
                 ctx.check(inside, f'{f.qualname}:{name} decided per callback', g, f'`{name} = True` inside the loop over the callbacks',
